@@ -11,6 +11,7 @@ Local Open Scope Z_scope.
 Local Arguments len : simpl never.
 Local Arguments to_bytes_be : simpl never.
 Local Arguments FFCDHKey_unpack : simpl never.
+Local Arguments FFCDHParameters_unpack : simpl never.
 Local Arguments FFCDHKey_pack : simpl never.
 Local Arguments ECDHKey_unpack : simpl never.
 Local Arguments ECDHKey_pack : simpl never.
@@ -49,6 +50,21 @@ Proof. destruct cv; reflexivity. Qed.
 Lemma index2_0 {A} (a b : A) : PySlice.index [a; b] 0 = Ok a.
 Proof. reflexivity. Qed.
 
+Ltac sct := repeat (progress (cbn; try unfold test)).
+Ltac dh_tail k S :=
+  let dp := fresh "dp" in let x := fresh "x" in let s := fresh "s" in let ss := fresh "ss" in
+  (destruct (FFCDHParameters_unpack S) as [dp|x]; sct; [|reflexivity]);
+  unfold dh_params_mismatch, k_dh_pub_bad;
+  (destruct (ffk_key_length k =? ffp_key_length dp); sct; [|reflexivity]);
+  (destruct (ffk_field_order k =? ffp_field_order dp); sct; [|reflexivity]);
+  (destruct (ffk_generator k =? ffp_generator dp); sct; [|reflexivity]);
+  (destruct (1 <? ffk_public_key k); sct; [|reflexivity]);
+  (destruct (ffk_public_key k <? ffk_field_order k - 1); sct; [|reflexivity]);
+  (destruct (py_pow3 _ _ _) as [s|x]; sct; [|reflexivity]);
+  unfold to_bytes_be_z, to_bytes_generic; (destruct (ffk_key_length k <? 0); sct; [reflexivity|]);
+  (destruct (to_bytes_be _ s) as [ss|x]; sct; [|reflexivity]);
+  rewrite enc_kek_context; sct; rewrite enc_alg_id; sct; reflexivity.
+
 Lemma flow_compute_kek c u fuel h alg sp priv pub :
   run (W c u) fuel k_flow_compute_kek [VO (OHash h); VS alg; VB sp; VB priv; VB pub] = liftb (compute_kek c h alg sp priv pub).
 Proof.
@@ -56,10 +72,11 @@ Proof.
   change (zs_eqb alg [68; 72]) with (beqb alg [68; 72]).
   destruct (beqb alg [68; 72]) eqn:Edh; cbn.
   - destruct (FFCDHKey_unpack pub) as [k|x]; cbn; [|reflexivity].
-    destruct (py_pow3 _ _ _) as [s|x]; cbn; [|reflexivity].
-    unfold to_bytes_be_z, to_bytes_generic. destruct (ffk_key_length k <? 0); cbn; [reflexivity|].
-    destruct (to_bytes_be _ s) as [ss|x]; cbn; [|reflexivity].
-    rewrite enc_kek_context. cbn. rewrite enc_alg_id. cbn. reflexivity.
+    (* secret_parameters or b"" is the argument itself *)
+    destruct sp as [|b0 sp'].
+    + change (len (@nil Z)) with 0. cbn. dh_tail k (@nil Z).
+    + rewrite len_cons. replace (1 + len sp' =? 0) with false by (pose proof (len_nonneg sp'); lia). cbn.
+      dh_tail k (b0 :: sp').
   - destruct (startswith alg _) eqn:Eec; cbn; [|reflexivity].
     destruct (ECDHKey_unpack pub) as [k|x]; cbn; [|reflexivity].
     destruct (curve_and_hash k) as [[cv sh]|x]; cbn; [|reflexivity].
